@@ -223,3 +223,329 @@ pub proof fn lemma_neg_result(r: Seq<u64>, w: Seq<u64>, n: nat)
         }
     }
 }
+
+/// the two's-complement digit stream of +val(s) (neg == false) or -val(s) (neg == true)
+pub open spec fn sdig(neg: bool, s: Seq<u64>, i: nat) -> u64 { if neg { ndig(s, i) } else { dig(s, i as int) } }
+pub open spec fn sval(neg: bool, s: Seq<u64>) -> int { if neg { -(val(s) as int) } else { val(s) as int } }
+/// op: 0 = and, 1 = or, 2 = xor
+pub open spec fn dop(op: int, u: u64, v: u64) -> u64 { if op == 0 { u & v } else if op == 1 { u | v } else { u ^ v } }
+pub open spec fn bop(op: int, p: bool, q: bool) -> bool { if op == 0 { p && q } else if op == 1 { p || q } else { p != q } }
+/// the window of n result digits
+pub open spec fn wdig(op: int, an: bool, a: Seq<u64>, bn: bool, b: Seq<u64>, n: nat) -> Seq<u64> {
+    Seq::new(n, |j: int| dop(op, sdig(an, a, j as nat), sdig(bn, b, j as nat)))
+}
+
+pub proof fn lemma_dbit_dop(op: int, u: u64, v: u64, j: nat)
+    requires j < 64
+    ensures dbit(dop(op, u, v), j) == bop(op, dbit(u, j), dbit(v, j))
+{
+    let jj = j as u64;
+    assert(jj < 64 ==> (((u & v) >> jj) & 1 == 1) == (((u >> jj) & 1 == 1) && ((v >> jj) & 1 == 1))) by (bit_vector);
+    assert(jj < 64 ==> (((u | v) >> jj) & 1 == 1) == (((u >> jj) & 1 == 1) || ((v >> jj) & 1 == 1))) by (bit_vector);
+    assert(jj < 64 ==> (((u ^ v) >> jj) & 1 == 1) == (((u >> jj) & 1 == 1) != ((v >> jj) & 1 == 1))) by (bit_vector);
+}
+
+pub proof fn lemma_ibit_s(neg: bool, s: Seq<u64>, k: nat)
+    requires neg ==> val(s) > 0
+    ensures ibit(sval(neg, s), k) == dbit(sdig(neg, s, k / 64), k % 64)
+{
+    if neg { lemma_ibit_neg(s, k); } else { lemma_ibit_pos(s, k); }
+}
+
+/// beyond its digits the stream of a number is its sign digit
+pub proof fn lemma_sdig_high(neg: bool, s: Seq<u64>, i: nat)
+    requires i >= s.len(), neg ==> val(s) > 0
+    ensures sdig(neg, s, i) == (if neg { 0xffff_ffff_ffff_ffffu64 } else { 0u64 })
+{
+    if neg { lemma_ndig_high(s, i); }
+}
+
+/// a non-negative result given digit-wise: every bit of it is the operation on the operands' bits
+pub proof fn lemma_pos_result(op: int, r: Seq<u64>, an: bool, a: Seq<u64>, bn: bool, b: Seq<u64>)
+    requires an ==> val(a) > 0, bn ==> val(b) > 0,
+        forall|i: nat| dig(r, i as int) == dop(op, #[trigger] sdig(an, a, i), sdig(bn, b, i))
+    ensures forall|k: nat| #[trigger] ibit(val(r) as int, k) == bop(op, ibit(sval(an, a), k), ibit(sval(bn, b), k))
+{
+    assert forall|k: nat| #[trigger] ibit(val(r) as int, k) == bop(op, ibit(sval(an, a), k), ibit(sval(bn, b), k)) by {
+        lemma_ibit_pos(r, k);
+        lemma_ibit_s(an, a, k);
+        lemma_ibit_s(bn, b, k);
+        let i = k / 64;
+        assert(dig(r, i as int) == dop(op, sdig(an, a, i), sdig(bn, b, i)));
+        lemma_dbit_dop(op, sdig(an, a, i), sdig(bn, b, i), k % 64);
+    }
+}
+
+/// a negative result assembled by re-negating the window w of n result digits, the result stream being all ones beyond
+pub proof fn lemma_neg_result_op(op: int, r: Seq<u64>, an: bool, a: Seq<u64>, bn: bool, b: Seq<u64>, n: nat)
+    requires an ==> val(a) > 0, bn ==> val(b) > 0,
+        r =~= (if ncar(wdig(op, an, a, bn, b, n), n) == 1 { twd(wdig(op, an, a, bn, b, n), n).push(1u64) } else { twd(wdig(op, an, a, bn, b, n), n) }),
+        forall|i: nat| i >= n ==> dop(op, #[trigger] sdig(an, a, i), sdig(bn, b, i)) == 0xffff_ffff_ffff_ffffu64
+    ensures val(r) > 0,
+        forall|k: nat| #[trigger] ibit(-(val(r) as int), k) == bop(op, ibit(sval(an, a), k), ibit(sval(bn, b), k))
+{
+    let w = wdig(op, an, a, bn, b, n);
+    lemma_neg_result(r, w, n);
+    assert forall|k: nat| #[trigger] ibit(-(val(r) as int), k) == bop(op, ibit(sval(an, a), k), ibit(sval(bn, b), k)) by {
+        lemma_ibit_s(an, a, k);
+        lemma_ibit_s(bn, b, k);
+        let i = k / 64;
+        let j = k % 64;
+        lemma_dbit_dop(op, sdig(an, a, i), sdig(bn, b, i), j);
+        if k < 64 * n {
+            assert(w[i as int] == dop(op, sdig(an, a, i), sdig(bn, b, i)));
+        } else {
+            assert(dop(op, sdig(an, a, i), sdig(bn, b, i)) == 0xffff_ffff_ffff_ffffu64);
+            let jj = j as u64;
+            assert(jj < 64 ==> (0xffff_ffff_ffff_ffffu64 >> jj) & 1 == 1) by (bit_vector);
+        }
+    }
+}
+
+
+pub proof fn lemma_bit_ids(x: u64, y: u64)
+    ensures x & 0xffff_ffff_ffff_ffffu64 == x, 0xffff_ffff_ffff_ffffu64 & x == x, x | 0u64 == x, 0u64 | x == x, x ^ 0u64 == x, 0u64 ^ x == x,
+        y & 0xffff_ffff_ffff_ffffu64 == y, 0xffff_ffff_ffff_ffffu64 & y == y, y | 0u64 == y, 0u64 | y == y, y ^ 0u64 == y, 0u64 ^ y == y,
+        x & 0u64 == 0, 0u64 & x == 0, y & 0u64 == 0, 0u64 & y == 0,
+        x | 0xffff_ffff_ffff_ffffu64 == 0xffff_ffff_ffff_ffffu64, 0xffff_ffff_ffff_ffffu64 | x == 0xffff_ffff_ffff_ffffu64,
+        y | 0xffff_ffff_ffff_ffffu64 == 0xffff_ffff_ffff_ffffu64, 0xffff_ffff_ffff_ffffu64 | y == 0xffff_ffff_ffff_ffffu64,
+        x ^ y == y ^ x, x & y == y & x, x | y == y | x, !0u64 == 0xffff_ffff_ffff_ffffu64,
+        0u64 ^ 0xffff_ffff_ffff_ffffu64 == 0xffff_ffff_ffff_ffffu64, 0xffff_ffff_ffff_ffffu64 ^ 0u64 == 0xffff_ffff_ffff_ffffu64,
+{
+    assert(x & 0xffff_ffff_ffff_ffffu64 == x && 0xffff_ffff_ffff_ffffu64 & x == x && x | 0u64 == x && 0u64 | x == x && x ^ 0u64 == x && 0u64 ^ x == x) by (bit_vector);
+    assert(y & 0xffff_ffff_ffff_ffffu64 == y && 0xffff_ffff_ffff_ffffu64 & y == y && y | 0u64 == y && 0u64 | y == y && y ^ 0u64 == y && 0u64 ^ y == y) by (bit_vector);
+    assert(x & 0u64 == 0 && 0u64 & x == 0 && y & 0u64 == 0 && 0u64 & y == 0) by (bit_vector);
+    assert(x | 0xffff_ffff_ffff_ffffu64 == 0xffff_ffff_ffff_ffffu64 && 0xffff_ffff_ffff_ffffu64 | x == 0xffff_ffff_ffff_ffffu64) by (bit_vector);
+    assert(y | 0xffff_ffff_ffff_ffffu64 == 0xffff_ffff_ffff_ffffu64 && 0xffff_ffff_ffff_ffffu64 | y == 0xffff_ffff_ffff_ffffu64) by (bit_vector);
+    assert(x ^ y == y ^ x && x & y == y & x && x | y == y | x) by (bit_vector);
+    assert(!0u64 == 0xffff_ffff_ffff_ffffu64) by (bit_vector);
+    assert(0u64 ^ 0xffff_ffff_ffff_ffffu64 == 0xffff_ffff_ffff_ffffu64 && 0xffff_ffff_ffff_ffffu64 ^ 0u64 == 0xffff_ffff_ffff_ffffu64) by (bit_vector);
+}
+
+
+pub proof fn lemma_ibit_zero(k: nat)
+    ensures !ibit(0, k)
+{
+    vstd::arithmetic::power2::lemma_pow2_pos(k);
+    vstd::arithmetic::div_mod::lemma_basic_div(0, vstd::arithmetic::power2::pow2(k) as int);
+}
+
+pub proof fn lemma_dval_zero(s: Seq<u64>, n: nat, j: nat)
+    requires dval(s, n) == 0, j < n
+    ensures dig(s, j as int) == 0
+    decreases n
+{
+    let m = (n - 1) as nat;
+    lemma_pw_pos(m);
+    let d = dig(s, m as int) as nat;
+    if d > 0 { assert(d * pw(m) > 0) by (nonlinear_arith) requires d > 0, pw(m) > 0; }
+    if j < m { lemma_dval_zero(s, m, j); }
+}
+
+/// OR with a negative operand whose magnitude fits the window is never the all-zero window: no carry survives
+pub proof fn lemma_or_ncar(an: bool, a: Seq<u64>, bn: bool, b: Seq<u64>, n: nat)
+    requires (an && n >= a.len() && val(a) > 0) || (bn && n >= b.len() && val(b) > 0)
+    ensures ncar(wdig(1, an, a, bn, b, n), n) == 0
+{
+    let w = wdig(1, an, a, bn, b, n);
+    lemma_ncar_dval(w, n);
+    if ncar(w, n) == 1 {
+        let s = if an && n >= a.len() && val(a) > 0 { a } else { b };
+        let t = twd(s, n);
+        lemma_twd_val(s, n);
+        lemma_valp_bound(s, s.len());
+        lemma_pw_mono(s.len(), n);
+        assert(ncar(s, n) * pw(n) == 0) by (nonlinear_arith) requires ncar(s, n) == 0;
+        assert(val(t) > 0);
+        assert forall|j: int| 0 <= j < n implies t[j] == 0 by {
+            lemma_dval_zero(w, n, j as nat);
+            let x = sdig(an, a, j as nat);
+            let y = sdig(bn, b, j as nat);
+            assert(w[j] == x | y);
+            assert((x | y) == 0 ==> x == 0 && y == 0) by (bit_vector);
+        }
+        lemma_valp_zero_(t, n);
+    }
+}
+
+pub proof fn lemma_valp_zero_(s: Seq<u64>, i: nat)
+    requires i <= s.len(), forall|j: int| 0 <= j < i ==> s[j] == 0
+    ensures valp(s, i) == 0
+    decreases i
+{
+    if i > 0 {
+        lemma_valp_zero_(s, (i - 1) as nat);
+        assert((s[i - 1] as nat) * pw((i - 1) as nat) == 0) by (nonlinear_arith) requires s[i - 1] == 0;
+    }
+}
+
+pub open spec fn sg(neg: bool) -> u64 { if neg { 0xffff_ffff_ffff_ffffu64 } else { 0u64 } }
+
+/// when the window of n digits is wide enough the result stream beyond it is the constant sign digit of the result
+pub open spec fn window_ok(op: int, an: bool, a: Seq<u64>, bn: bool, b: Seq<u64>, n: nat) -> bool {
+    (n >= a.len() && n >= b.len())
+    || (op == 0 && ((!an && n >= a.len()) || (!bn && n >= b.len())))
+    || (op == 1 && ((an && n >= a.len()) || (bn && n >= b.len())))
+}
+
+pub proof fn lemma_high(op: int, an: bool, a: Seq<u64>, bn: bool, b: Seq<u64>, n: nat)
+    requires 0 <= op <= 2, an ==> val(a) > 0, bn ==> val(b) > 0, window_ok(op, an, a, bn, b, n)
+    ensures forall|i: nat| i >= n ==> dop(op, #[trigger] sdig(an, a, i), sdig(bn, b, i)) == sg(bop(op, an, bn))
+{
+    assert forall|i: nat| i >= n implies dop(op, #[trigger] sdig(an, a, i), sdig(bn, b, i)) == sg(bop(op, an, bn)) by {
+        let x = sdig(an, a, i);
+        let y = sdig(bn, b, i);
+        lemma_bit_ids(x, y);
+        if i >= a.len() { lemma_sdig_high(an, a, i); }
+        if i >= b.len() { lemma_sdig_high(bn, b, i); }
+        assert(0xffff_ffff_ffff_ffffu64 ^ 0xffff_ffff_ffff_ffffu64 == 0 && 0u64 ^ 0u64 == 0 && 0u64 & 0u64 == 0 && 0u64 | 0u64 == 0
+            && 0xffff_ffff_ffff_ffffu64 & 0xffff_ffff_ffff_ffffu64 == 0xffff_ffff_ffff_ffffu64
+            && 0xffff_ffff_ffff_ffffu64 | 0xffff_ffff_ffff_ffffu64 == 0xffff_ffff_ffff_ffffu64) by (bit_vector);
+    }
+}
+
+/// all bits of r are op on the bits of x and y
+pub open spec fn bits_rel(op: int, r: int, x: int, y: int) -> bool {
+    forall|k: nat| #[trigger] ibit(r, k) == bop(op, ibit(x, k), ibit(y, k))
+}
+
+/// one sign case of a BigInt bitwise operation: the kernel's digit-exact result denotes the operation on the infinite expansions
+pub proof fn lemma_case(op: int, r: Seq<u64>, an: bool, a: Seq<u64>, bn: bool, b: Seq<u64>, n: nat)
+    requires 0 <= op <= 2, an ==> val(a) > 0, bn ==> val(b) > 0, window_ok(op, an, a, bn, b, n),
+        !bop(op, an, bn) ==> r =~= wdig(op, an, a, bn, b, n),
+        bop(op, an, bn) ==> (r =~= (if ncar(wdig(op, an, a, bn, b, n), n) == 1 { twd(wdig(op, an, a, bn, b, n), n).push(1u64) } else { twd(wdig(op, an, a, bn, b, n), n) })
+            || (op == 1 && r =~= twd(wdig(op, an, a, bn, b, n), n)))
+    ensures bop(op, an, bn) ==> val(r) > 0,
+        bits_rel(op, if bop(op, an, bn) { -(val(r) as int) } else { val(r) as int }, sval(an, a), sval(bn, b))
+{
+    lemma_high(op, an, a, bn, b, n);
+    if bop(op, an, bn) {
+        if op == 1 { lemma_or_ncar(an, a, bn, b, n); }
+        lemma_neg_result_op(op, r, an, a, bn, b, n);
+    } else {
+        let w = wdig(op, an, a, bn, b, n);
+        assert forall|i: nat| dig(r, i as int) == dop(op, #[trigger] sdig(an, a, i), sdig(bn, b, i)) by {
+            if i < n { assert(r[i as int] == w[i as int]); }
+        }
+        lemma_pos_result(op, r, an, a, bn, b);
+    }
+}
+
+/// bits below t depend only on the residue mod 2^t
+pub proof fn lemma_ibit_mod(x: int, t: nat, k: nat)
+    requires k < t
+    ensures ibit(x, k) == ibit(x % (vstd::arithmetic::power2::pow2(t) as int), k)
+{
+    let pn = vstd::arithmetic::power2::pow2(t) as int;
+    let pk = vstd::arithmetic::power2::pow2(k) as int;
+    let ph = vstd::arithmetic::power2::pow2((t - k) as nat) as int;
+    vstd::arithmetic::power2::lemma_pow2_pos(t);
+    vstd::arithmetic::power2::lemma_pow2_pos(k);
+    vstd::arithmetic::power2::lemma_pow2_adds(k, (t - k) as nat);
+    vstd::arithmetic::power2::lemma_pow2_unfold((t - k) as nat);
+    let ph2 = vstd::arithmetic::power2::pow2((t - k - 1) as nat) as int;
+    assert(ph == 2 * ph2);
+    let q = x / pn;
+    let r = x % pn;
+    vstd::arithmetic::div_mod::lemma_fundamental_div_mod(x, pn);
+    vstd::arithmetic::div_mod::lemma_mod_bound(x, pn);
+    let r1 = r / pk;
+    let r0 = r % pk;
+    vstd::arithmetic::div_mod::lemma_fundamental_div_mod(r, pk);
+    vstd::arithmetic::div_mod::lemma_mod_bound(r, pk);
+    assert(x == pk * (ph * q + r1) + r0) by (nonlinear_arith)
+        requires x == pn * q + r, r == pk * r1 + r0, pn == pk * ph;
+    vstd::arithmetic::div_mod::lemma_fundamental_div_mod_converse(x, pk, ph * q + r1, r0);
+    assert(ph * q + r1 == 2 * (ph2 * q) + r1) by (nonlinear_arith) requires ph == 2 * ph2;
+    vstd::arithmetic::div_mod::lemma_mod_multiples_vanish(ph2 * q, r1, 2);
+}
+
+/// bit t+j of x is bit j of floor(x / 2^t)
+pub proof fn lemma_ibit_shift(x: int, t: nat, j: nat)
+    ensures ibit(x, t + j) == ibit(x / (vstd::arithmetic::power2::pow2(t) as int), j)
+{
+    let pt = vstd::arithmetic::power2::pow2(t) as int;
+    let pj = vstd::arithmetic::power2::pow2(j) as int;
+    vstd::arithmetic::power2::lemma_pow2_pos(t);
+    vstd::arithmetic::power2::lemma_pow2_pos(j);
+    vstd::arithmetic::power2::lemma_pow2_adds(t, j);
+    let q = x / pt;
+    let r = x % pt;
+    vstd::arithmetic::div_mod::lemma_fundamental_div_mod(x, pt);
+    vstd::arithmetic::div_mod::lemma_mod_bound(x, pt);
+    let q2 = q / pj;
+    let r2 = q % pj;
+    vstd::arithmetic::div_mod::lemma_fundamental_div_mod(q, pj);
+    vstd::arithmetic::div_mod::lemma_mod_bound(q, pj);
+    assert(x == (pt * pj) * q2 + (pt * r2 + r)) by (nonlinear_arith) requires x == pt * q + r, q == pj * q2 + r2;
+    assert(0 <= pt * r2 + r < pt * pj) by (nonlinear_arith) requires 0 <= r < pt, 0 <= r2 < pj;
+    vstd::arithmetic::div_mod::lemma_fundamental_div_mod_converse(x, pt * pj, q2, pt * r2 + r);
+}
+
+/// the bits of -y-1 (that is, !y) are the complements of the bits of y
+pub proof fn lemma_compl(y: int, k: nat)
+    ensures ibit(-y - 1, k) == !ibit(y, k)
+{
+    let pk = vstd::arithmetic::power2::pow2(k) as int;
+    vstd::arithmetic::power2::lemma_pow2_pos(k);
+    let q = y / pk;
+    let r = y % pk;
+    vstd::arithmetic::div_mod::lemma_fundamental_div_mod(y, pk);
+    vstd::arithmetic::div_mod::lemma_mod_bound(y, pk);
+    assert(-y - 1 == pk * (-q - 1) + (pk - 1 - r)) by (nonlinear_arith) requires y == pk * q + r;
+    vstd::arithmetic::div_mod::lemma_fundamental_div_mod_converse(-y - 1, pk, -q - 1, pk - 1 - r);
+    let h = q / 2;
+    let b = q % 2;
+    vstd::arithmetic::div_mod::lemma_fundamental_div_mod(q, 2);
+    vstd::arithmetic::div_mod::lemma_fundamental_div_mod_converse(-q - 1, 2, -h - 1, 1 - b);
+}
+
+/// two's complement of a magnitude m with lowest set bit tz:  0 below tz, 1 at tz, complemented above
+pub proof fn lemma_neg_bit(m: nat, tz: nat, k: nat)
+    requires m > 0, m % vstd::arithmetic::power2::pow2(tz) == 0, bitv(m, tz)
+    ensures ibit(-(m as int), k) == (if k < tz { false } else if k == tz { true } else { !bitv(m, k) })
+{
+    let pt = vstd::arithmetic::power2::pow2(tz) as int;
+    vstd::arithmetic::power2::lemma_pow2_pos(tz);
+    let x = -(m as int);
+    let c = (m as int) / pt;
+    vstd::arithmetic::div_mod::lemma_fundamental_div_mod(m as int, pt);
+    assert(m as int == pt * c);
+    assert(x == pt * (-c) + 0) by (nonlinear_arith) requires m as int == pt * c, x == -(m as int);
+    vstd::arithmetic::div_mod::lemma_fundamental_div_mod_converse(x, pt, -c, 0);
+    if k < tz {
+        lemma_ibit_mod(x, tz, k);
+        lemma_ibit_zero(k);
+    } else {
+        let j = (k - tz) as nat;
+        lemma_ibit_shift(x, tz, j);
+        lemma_ibit_shift(m as int, tz, j);
+        // c is odd (bit tz of m)
+        vstd::arithmetic::power2::lemma2_to64();
+        assert(c % 2 == 1);
+        // -c == -(c - 1) - 1
+        lemma_compl(c - 1, j);
+        if j == 0 {
+            let h = (c - 1) / 2;
+            vstd::arithmetic::div_mod::lemma_fundamental_div_mod(c, 2);
+            vstd::arithmetic::div_mod::lemma_fundamental_div_mod_converse(c - 1, 2, c / 2, 0);
+            assert((c - 1) / 1 == c - 1);
+        } else {
+            // for j >= 1 the bits of c - 1 and c agree (c odd)
+            let pj = vstd::arithmetic::power2::pow2(j) as int;
+            vstd::arithmetic::power2::lemma_pow2_pos(j);
+            vstd::arithmetic::power2::lemma_pow2_unfold(j);
+            let q = c / pj;
+            let r = c % pj;
+            vstd::arithmetic::div_mod::lemma_fundamental_div_mod(c, pj);
+            vstd::arithmetic::div_mod::lemma_mod_bound(c, pj);
+            // r is odd, hence r >= 1
+            let ph = vstd::arithmetic::power2::pow2((j - 1) as nat) as int;
+            assert(pj == 2 * ph);
+            assert(c == 2 * (ph * q) + r) by (nonlinear_arith) requires c == pj * q + r, pj == 2 * ph;
+            vstd::arithmetic::div_mod::lemma_mod_multiples_vanish(ph * q, r, 2);
+            assert(r % 2 == 1);
+            vstd::arithmetic::div_mod::lemma_fundamental_div_mod_converse(c - 1, pj, q, r - 1);
+        }
+    }
+}
